@@ -371,7 +371,7 @@ def run_hyeong(args, stdin_bytes=b"", timeout=10, release=False, cwd=None):
     exe = HYEONG_REL if release else HYEONG
     try:
         p = subprocess.run([exe, "--color", "never"] + list(args), input=stdin_bytes, stdout=subprocess.PIPE,
-                           stderr=subprocess.PIPE, timeout=timeout, cwd=cwd)
+                           stderr=subprocess.PIPE, timeout=timeout, cwd=cwd, env=ENV)
     except subprocess.TimeoutExpired as e:
         return "timeout", e.stdout or b"", e.stderr or b""
     rc = p.returncode
